@@ -94,7 +94,7 @@ def validate_inputs(
     )
 
     # Step 4: Bypass detection (considering merged values)
-    bypassed_inputs = _find_bypassed_inputs(graph, provided, inputs_spec)
+    bypassed_inputs = _find_bypassed_inputs(graph, provided, inputs_spec, bound_seeds)
 
     # Step 5: Cycle entry point matching
     if inputs_spec.entrypoints:
@@ -526,7 +526,12 @@ def _build_internal_override_message(
     return " ".join(message)
 
 
-def _find_bypassed_inputs(graph: Graph, provided: set[str], inputs_spec: InputSpec) -> set[str]:
+def _find_bypassed_inputs(
+    graph: Graph,
+    provided: set[str],
+    inputs_spec: InputSpec,
+    bound_seeds: set[str] | frozenset[str] = frozenset(),
+) -> set[str]:
     """Find inputs that belong to nodes fully bypassed by intermediate injection.
 
     A node is bypassed ONLY if ALL of its outputs that are consumed downstream
@@ -554,7 +559,9 @@ def _find_bypassed_inputs(graph: Graph, provided: set[str], inputs_spec: InputSp
 
     # Cycle entry point params: providing these means bootstrapping a cycle,
     # NOT bypassing the producer node. Exclude from bypass check.
-    cycle_ep_params = {p for params in inputs_spec.entrypoints.values() for p in params}
+    # A bound cycle seed is no longer listed among the entry points, but it
+    # bootstraps the cycle just the same: it does not bypass its producer.
+    cycle_ep_params = {p for params in inputs_spec.entrypoints.values() for p in params} | set(bound_seeds)
 
     # A node is bypassed only if ALL its non-cycle consumed outputs are provided
     bypassed_nodes: set[str] = set()
